@@ -3,12 +3,14 @@ package abci
 import (
 	"bytes"
 	"fmt"
+	"sort"
 	"testing"
 
 	abci "github.com/tendermint/tendermint/abci/types"
 	"pgregory.net/rapid"
 
 	"github.com/pokt-network/pocket-core/app"
+	"github.com/pokt-network/pocket-core/codec"
 	appsTypes "github.com/pokt-network/pocket-core/x/apps/types"
 	nodesTypes "github.com/pokt-network/pocket-core/x/nodes/types"
 	pocketTypes "github.com/pokt-network/pocket-core/x/pocketcore/types"
@@ -292,10 +294,16 @@ func TestC11(t *testing.T) {
 						if between {
 							before = nA.DumpDigest()
 						}
+						// the activation schedule (upgrade heights and feature heights the gates of every later block read) is
+						// process state derived from the chain: it belongs to "the state the next block builds on"
+						schedBefore := activationSchedule()
 						if runNoise(nA, w, op) {
 							panics++
 						}
 						noiseCalls++
+						if schedAfter := activationSchedule(); schedAfter != schedBefore {
+							c.Violation("C11/"+op.Kind+"/activation-schedule-changed-by-call", "noise call %s (latest height %d) changed the node's activation schedule: %s -> %s", op.Desc, nA.Height, schedBefore, schedAfter)
+						}
 						if between {
 							if after := nA.DumpDigest(); after != before {
 								c.Violation("C11/"+op.Kind+"/state-digest-changed-by-call", "noise call %s issued after commit of height %d changed the persistent state (digest %s -> %s)", op.Desc, nA.Height, before[:12], after[:12])
@@ -322,4 +330,18 @@ func TestC11(t *testing.T) {
 			c.AddExtra("noise_calls", noiseCalls)
 			c.AddExtra("noise_calls_panicked", panics)
 		})
+}
+
+// activationSchedule renders the process-global upgrade / feature activation heights.
+func activationSchedule() string {
+	keys := make([]string, 0, len(codec.UpgradeFeatureMap))
+	for k := range codec.UpgradeFeatureMap {
+		keys = append(keys, k)
+	}
+	sort.Strings(keys)
+	out := fmt.Sprintf("upgrade=%d old=%d", codec.UpgradeHeight, codec.OldUpgradeHeight)
+	for _, k := range keys {
+		out += fmt.Sprintf(" %s:%d", k, codec.UpgradeFeatureMap[k])
+	}
+	return out
 }
